@@ -382,3 +382,251 @@ Qed.
 
 Lemma exec_halt_ext m s : ext (events s) (events (ostate (exec m IHalt s))).
 Proof. apply ext_refl. Qed.
+
+(* ---------- tick ---------- *)
+
+Definition tstate (t : tick_out) : st := match t with Next s | Crash _ s | NeedInput s => s end.
+Definition tmap (f : st -> st) (t : tick_out) : tick_out :=
+  match t with Next s => Next (f s) | Crash k s => Crash k (f s) | NeedInput s => NeedInput (f s) end.
+Definition same_kind (t t' : tick_out) : Prop :=
+  match t, t' with
+  | Next _, Next _ => True
+  | Crash k _, Crash k' _ => k = k'
+  | NeedInput _, NeedInput _ => True
+  | _, _ => False
+  end.
+
+(* equal up to halted/reason *)
+Definition eqh (a b : st) : Prop := set_halt a false 0 = set_halt b false 0.
+
+Lemma eqh_refl a : eqh a a. Proof. reflexivity. Qed.
+Lemma eqh_sym a b : eqh a b -> eqh b a. Proof. unfold eqh; congruence. Qed.
+Lemma eqh_trans a b c : eqh a b -> eqh b c -> eqh a c. Proof. unfold eqh; congruence. Qed.
+Lemma eqh_set_halt a h r : eqh a (set_halt a h r). Proof. reflexivity. Qed.
+Lemma eqh_set_halt_l a b h r : eqh a b -> eqh (set_halt a h r) b. Proof. exact (fun H => H). Qed.
+Lemma eqh_set_halt_r a b h r : eqh a b -> eqh a (set_halt b h r). Proof. exact (fun H => H). Qed.
+
+Lemma set_halt_id s : set_halt s (halted s) (reason s) = s.
+Proof. destruct s; reflexivity. Qed.
+
+Lemma eqh_is_set_halt a b : eqh a b -> b = set_halt a (halted b) (reason b).
+Proof.
+  unfold eqh. intros H. destruct a, b; cbn in *. inversion H; subst. reflexivity.
+Qed.
+
+Lemma eqh_events a b : eqh a b -> events a = events b.
+Proof. intros H. apply (f_equal events) in H. exact H. Qed.
+Lemma eqh_pc a b : eqh a b -> pc a = pc b.
+Proof. intros H. apply (f_equal pc) in H. exact H. Qed.
+
+(* what one step does to a state whose halted/reason were overwritten:
+   either nothing halted (the overwrite is carried along) or the step halted
+   the machine (the overwrite is overwritten) *)
+Definition hrel (h0 : bool) (r0 : Z) (h : bool) (r : Z) (t t' : tick_out) : Prop :=
+  (t' = tmap (fun a => set_halt a h r) t /\ halted (tstate t) = h0 /\ reason (tstate t) = r0) \/
+  (t' = t /\ halted (tstate t) = true).
+
+Lemma exec_preserves m i s : i <> IHalt ->
+  halted (ostate (exec m i s)) = halted s /\ reason (ostate (exec m i s)) = reason s.
+Proof.
+  intros Hi. pose proof (proj1 (good_exec m i Hi) s (halted s) (reason s)) as H.
+  rewrite set_halt_id in H.
+  destruct (exec m i s); simpl in *; inversion H as [H1]; rewrite H1; split; reflexivity.
+Qed.
+
+Lemma exec_errres_preserves m b s :
+  halted (ostate (exec_errres m b s)) = halted s /\ reason (ostate (exec_errres m b s)) = reason s.
+Proof.
+  pose proof (proj1 (good_exec_errres m b) s (halted s) (reason s)) as H.
+  rewrite set_halt_id in H.
+  destruct (exec_errres m b s); simpl in *; inversion H as [H1]; rewrite H1; split; reflexivity.
+Qed.
+
+Lemma do_trap_hrel m c kw s h r :
+  hrel (halted s) (reason s) h r (do_trap m c kw s) (do_trap m c kw (set_halt s h r)).
+Proof.
+  unfold do_trap.
+  change (handler_active (set_last_trap (set_halt s h r) (Some c) kw)) with (handler_active s).
+  change (ttarget_ (set_last_trap (set_halt s h r) (Some c) kw)) with (ttarget_ s).
+  change (handler_active (set_last_trap s (Some c) kw)) with (handler_active s).
+  change (ttarget_ (set_last_trap s (Some c) kw)) with (ttarget_ s).
+  destruct (handler_active s); simpl.
+  - destruct kw; [right | left]; repeat split; reflexivity.
+  - destruct (ttarget_ s); simpl.
+    + destruct kw; [right | left]; repeat split; reflexivity.
+    + change (set_last_trap (set_halt s h r) (Some c) kw) with (set_halt (set_last_trap s (Some c) kw) h r).
+      rewrite (proj1 (good_exec_errres m true)).
+      destruct (exec_errres_preserves m true (set_last_trap s (Some c) kw)) as [P1 P2].
+      destruct (exec_errres m true (set_last_trap s (Some c) kw)); simpl in *; left; repeat split; assumption.
+    + left; repeat split; reflexivity.
+Qed.
+
+Definition rel3 (s : st) (h : bool) (r : Z) (t t' : tick_out) : Prop :=
+  same_kind t t' /\ eqh (tstate t) (tstate t') /\
+  (halted s = false -> h = false ->
+   tstate t' = if halted (tstate t) then tstate t else set_halt (tstate t) false r).
+
+Lemma hrel_rel3 s h r t t' : hrel (halted s) (reason s) h r t t' -> rel3 s h r t t'.
+Proof.
+  intros [[E [H1 H2]] | [E H1]]; subst t'; (split; [|split]).
+  - destruct t; simpl; auto.
+  - destruct t; simpl; apply eqh_set_halt.
+  - intros Hs Hh. subst h. rewrite H1, Hs. destruct t; reflexivity.
+  - destruct t; simpl; auto.
+  - apply eqh_refl.
+  - intros _ _. rewrite H1. reflexivity.
+Qed.
+
+Lemma end_check_rel3 m s h r t t' :
+  hrel (halted s) (reason s) h r t t' -> rel3 s h r (end_check m t) (end_check m t').
+Proof.
+  unfold rel3.
+  intros [[E [H1 H2]] | [E H1]]; subst t'.
+  - destruct t as [a | k a | a]; simpl in *.
+    + change (pc (set_halt a h r)) with (pc a).
+      change (halted (set_halt a h r)) with h.
+      rewrite H1.
+      destruct (pc a >=? code_len m); rewrite ?andb_true_r, ?andb_false_r.
+      * destruct (halted s) eqn:Hs, h; simpl; (split; [exact I | split]);
+          try (unfold eqh; reflexivity); try (intros Hx Hy; congruence);
+          try (intros _ _; reflexivity).
+      * simpl. split; [exact I | split]; [apply eqh_set_halt |].
+        intros Hs Hh. subst h. rewrite H1, Hs. reflexivity.
+    + split; [reflexivity | split]; [apply eqh_set_halt |].
+      intros Hs Hh. subst h. rewrite H1, Hs. reflexivity.
+    + split; [exact I | split]; [apply eqh_set_halt |].
+      intros Hs Hh. subst h. rewrite H1, Hs. reflexivity.
+  - destruct t as [a | k a | a]; simpl in *.
+    + rewrite H1. simpl. split; [exact I | split]; [apply eqh_refl |]. intros _ _. rewrite H1. reflexivity.
+    + split; [reflexivity | split]; [apply eqh_refl |]. intros _ _. rewrite H1. reflexivity.
+    + split; [exact I | split]; [apply eqh_refl |]. intros _ _. rewrite H1. reflexivity.
+Qed.
+
+Lemma exec_hrel m i s h r :
+  hrel (halted s) (reason s) h r
+       (match exec m i s with
+        | R _ s3 => Next s3
+        | T c kw s3 => do_trap m c kw (set_trapped_addr s3 (prev_pc s3))
+        | ZD s3 => do_trap m T_DIVISION_BY_ZERO true s3
+        | X k s3 => Crash k s3
+        | NI s3 => NeedInput s3
+        end)
+       (match exec m i (set_halt s h r) with
+        | R _ s3 => Next s3
+        | T c kw s3 => do_trap m c kw (set_trapped_addr s3 (prev_pc s3))
+        | ZD s3 => do_trap m T_DIVISION_BY_ZERO true s3
+        | X k s3 => Crash k s3
+        | NI s3 => NeedInput s3
+        end).
+Proof.
+  assert (Hd : {i = IHalt} + {i <> IHalt}) by (destruct i; (left; reflexivity) || (right; discriminate)).
+  destruct Hd as [-> | Hi].
+  - right. split; reflexivity.
+  - rewrite (proj1 (good_exec m i Hi)).
+    destruct (exec_preserves m i s Hi) as [P1 P2].
+    destruct (exec m i s) as [u s3 | c kw s3 | s3 | k s3 | s3]; simpl in *.
+    + left; repeat split; assumption.
+    + change (set_trapped_addr (set_halt s3 h r) (prev_pc (set_halt s3 h r)))
+        with (set_halt (set_trapped_addr s3 (prev_pc s3)) h r).
+      rewrite <- P1, <- P2. apply (do_trap_hrel m c kw (set_trapped_addr s3 (prev_pc s3)) h r).
+    + rewrite <- P1, <- P2. apply do_trap_hrel.
+    + left; repeat split; assumption.
+    + left; repeat split; assumption.
+Qed.
+
+Lemma tick_set_halt m s h r : rel3 s h r (tick m s) (tick m (set_halt s h r)).
+Proof.
+  unfold tick.
+  change (irq (set_halt s h r)) with (irq s).
+  change (pc (set_halt s h r)) with (pc s).
+  destruct (irq s).
+  - apply hrel_rel3. apply (do_trap_hrel m _ _ (set_irq s false) h r).
+  - destruct ((pc s <? 0) || (pc s >=? code_len m)).
+    + apply hrel_rel3. left. repeat split; reflexivity.
+    + destruct (decode (skipn (Z.to_nat (pc s)) (m_code m))) as [| | i size].
+      * change (set_prev_pc (set_halt s h r) (pc s)) with (set_halt (set_prev_pc s (pc s)) h r).
+        apply hrel_rel3.
+        destruct (do_trap_hrel m T_INVALID_OP_CODE true (set_prev_pc s (pc s)) h r) as [[E [H1 H2]] | [E H1]];
+          rewrite E.
+        -- destruct (do_trap m T_INVALID_OP_CODE true (set_prev_pc s (pc s))); simpl in *;
+             left; repeat split; assumption.
+        -- destruct (do_trap m T_INVALID_OP_CODE true (set_prev_pc s (pc s))); simpl in *;
+             right; split; auto.
+      * apply hrel_rel3. left. repeat split; reflexivity.
+      * change (set_pc (set_prev_pc (set_halt s h r) (pc s)) (pc (set_prev_pc (set_halt s h r) (pc s)) + size))
+          with (set_halt (set_pc (set_prev_pc s (pc s)) (pc (set_prev_pc s (pc s)) + size)) h r).
+        assert (HE := exec_hrel m i (set_pc (set_prev_pc s (pc s)) (pc (set_prev_pc s (pc s)) + size)) h r).
+        change (halted (set_pc (set_prev_pc s (pc s)) (pc (set_prev_pc s (pc s)) + size))) with (halted s) in HE.
+        change (reason (set_pc (set_prev_pc s (pc s)) (pc (set_prev_pc s (pc s)) + size))) with (reason s) in HE.
+        destruct i; try (apply end_check_rel3; exact HE).
+        destruct (nthZ (m_literals m) idx).
+        -- apply end_check_rel3; exact HE.
+        -- apply hrel_rel3. left. repeat split; reflexivity.
+Qed.
+
+(* corollaries in the form used by the debugger proofs *)
+Lemma tick_eqh m s1 s2 : eqh s1 s2 ->
+  same_kind (tick m s1) (tick m s2) /\ eqh (tstate (tick m s1)) (tstate (tick m s2)).
+Proof.
+  intros E. rewrite (eqh_is_set_halt _ _ E).
+  destruct (tick_set_halt m s1 (halted s2) (reason s2)) as [K [Q _]]. split; assumption.
+Qed.
+
+Lemma tick_nh m s1 s2 s1' : eqh s1 s2 -> halted s1 = false -> halted s2 = false ->
+  tick m s1 = Next s1' ->
+  exists s2', tick m s2 = Next s2' /\ eqh s1' s2' /\ halted s2' = halted s1' /\
+              (halted s1' = true -> s2' = s1').
+Proof.
+  intros E H1 H2 T1. rewrite (eqh_is_set_halt _ _ E). rewrite H2.
+  destruct (tick_set_halt m s1 false (reason s2)) as [K [Q S]].
+  rewrite T1 in *. simpl in *.
+  destruct (tick m (set_halt s1 false (reason s2))) as [s2' | |]; simpl in *; try contradiction.
+  exists s2'. specialize (S H1 eq_refl). repeat split; auto.
+  - rewrite S. destruct (halted s1') eqn:Hh; [exact Hh | reflexivity].
+  - intros Hh. rewrite S, Hh. reflexivity.
+Qed.
+
+(* events are only appended by a tick *)
+Lemma do_trap_ext m c kw s : ext (events s) (events (tstate (do_trap m c kw s))).
+Proof.
+  unfold do_trap.
+  destruct (negb (handler_active (set_last_trap s (Some c) kw)) && _).
+  - destruct (ttarget_ (set_last_trap s (Some c) kw)); try apply ext_refl.
+    pose proof (proj2 (good_exec_errres m true) (set_last_trap s (Some c) kw)) as H.
+    destruct (exec_errres m true (set_last_trap s (Some c) kw)); exact H.
+  - destruct kw; apply ext_refl.
+Qed.
+
+Lemma end_check_events m t : events (tstate (end_check m t)) = events (tstate t).
+Proof. destruct t; simpl; try reflexivity. destruct (negb (halted s) && _); reflexivity. Qed.
+
+Lemma exec_ext m i s : ext (events s) (events (ostate (exec m i s))).
+Proof.
+  assert (Hd : {i = IHalt} + {i <> IHalt}) by (destruct i; (left; reflexivity) || (right; discriminate)).
+  destruct Hd as [-> | Hi]; [apply ext_refl | apply (proj2 (good_exec m i Hi))].
+Qed.
+
+Lemma tick_ext m s : ext (events s) (events (tstate (tick m s))).
+Proof.
+  unfold tick. destruct (irq s).
+  - apply (do_trap_ext m _ _ (set_irq s false)).
+  - destruct ((pc s <? 0) || (pc s >=? code_len m)); [apply ext_refl |].
+    destruct (decode (skipn (Z.to_nat (pc s)) (m_code m))) as [| | i size].
+    + pose proof (do_trap_ext m T_INVALID_OP_CODE true (set_prev_pc s (pc s))) as H.
+      destruct (do_trap m T_INVALID_OP_CODE true (set_prev_pc s (pc s))); exact H.
+    + apply ext_refl.
+    + assert (H : ext (events s) (events (tstate
+                (match exec m i (set_pc (set_prev_pc s (pc s)) (pc (set_prev_pc s (pc s)) + size)) with
+                 | R _ s3 => Next s3
+                 | T c kw s3 => do_trap m c kw (set_trapped_addr s3 (prev_pc s3))
+                 | ZD s3 => do_trap m T_DIVISION_BY_ZERO true s3
+                 | X k s3 => Crash k s3
+                 | NI s3 => NeedInput s3
+                 end)))).
+      { pose proof (exec_ext m i (set_pc (set_prev_pc s (pc s)) (pc (set_prev_pc s (pc s)) + size))) as H.
+        destruct (exec m i _) as [u s3 | c kw s3 | s3 | k s3 | s3]; simpl in *; try exact H.
+        - eapply ext_trans; [exact H | apply (do_trap_ext m c kw (set_trapped_addr s3 (prev_pc s3)))].
+        - eapply ext_trans; [exact H | apply do_trap_ext]. }
+      destruct i; try (rewrite end_check_events; exact H).
+      destruct (nthZ (m_literals m) idx); [rewrite end_check_events; exact H | apply ext_refl].
+Qed.
